@@ -179,6 +179,7 @@ type Expr struct {
 	Text string // lit / var text, operator for bin
 	L, R *Expr
 	LambdaParam string
+	LambdaParamType string // "" = untyped lambda parameter; otherwise written "(Type name) ->"
 	LambdaBody  *Expr
 	LambdaBlock []*Stmt
 }
